@@ -228,6 +228,63 @@ pub fn fetch_matrices() -> Result<Matrices, String> {
     Ok(Matrices { n, m })
 }
 
+/// Strings whose code-point order differs from their UTF-16 code-unit order (characters beyond
+/// U+FFFF against U+E000..U+FFFF), from their order after case folding, and from the order of
+/// their lengths: `<` and both sorts must follow the code points. Only booleans and positions
+/// are read back, never the strings themselves (how such characters are printed is C02's
+/// subject and has a known finding).
+pub const ORDER_STRINGS: &[&str] = &["", "A", "Z", "a", "aa", "ab", "b", "z", "~", "\u{7f}", "\u{80}", "\u{e9}", "\u{7ff}", "\u{800}", "\u{d7ff}", "\u{e000}", "\u{ff5a}", "\u{ffff}", "\u{10000}", "\u{1f600}", "\u{1f600}a", "\u{10ffff}"];
+
+pub fn check_string_order() -> Result<(usize, Vec<String>), String> {
+    let n = ORDER_STRINGS.len();
+    let lit = |s: &str| {
+        let mut t = String::new();
+        write_json_string_utf8(s, &mut t);
+        t
+    };
+    // arrival order: a fixed shuffle
+    let order: Vec<usize> = (0..n).map(|i| (i * 7 + 3) % n).collect();
+    let arr = format!("[{}]", order.iter().map(|i| lit(ORDER_STRINGS[*i])).collect::<Vec<_>>().join(","));
+    let mut errs = Vec::new();
+    let sel = "--select=(map . (map ^ (< ^ .)))=m".to_string();
+    let out = run(&[sel, "--style=consise".to_string()], arr.as_bytes());
+    if !out.res.is_ok() {
+        return Err(format!("jawk failed computing the < matrix of the strings: {}", out.res.short()));
+    }
+    let rows = split_rows(&out.stdout, b"\n")?;
+    let Some(RVal::Arr(outer)) = rows.first().and_then(|r| r.0.get("m").cloned()) else { return Err("< matrix missing".into()) };
+    for (a, row) in outer.iter().enumerate() {
+        let RVal::Arr(row) = row else { return Err("matrix row is not a list".into()) };
+        for (b, x) in row.iter().enumerate() {
+            let (i, j) = (order[a], order[b]);
+            // ORDER_STRINGS is written in increasing code-point order
+            if !matches!(x, RVal::Bool(v) if *v == (i < j)) {
+                errs.push(format!("(< {:?} {:?}) is {} but the code points say {}", ORDER_STRINGS[i], ORDER_STRINGS[j], x.to_json(), i < j));
+            }
+        }
+    }
+    let stream: String = order.iter().map(|i| format!("{{\"k\":{},\"id\":{}}}\n", lit(ORDER_STRINGS[*i]), i)).collect();
+    for (what, args, input) in [
+        ("(sort_by ..)", vec!["--select=(map (sort_by (indexed .) .value) .index)=s".to_string(), "--style=consise".to_string()], arr.clone()),
+        ("--sort-by", vec!["--sort-by=.k".to_string(), "--select=.id=id".to_string(), "--style=consise".to_string()], stream.clone()),
+        ("--sort-by DESC", vec!["--sort-by=.k=DESC".to_string(), "--select=.id=id".to_string(), "--style=consise".to_string()], stream.clone()),
+    ] {
+        let o = run(&args, input.as_bytes());
+        let rows = split_rows(&o.stdout, b"\n")?;
+        let ids: Vec<usize> = if what == "(sort_by ..)" {
+            rows.first().and_then(|r| r.0.get("s").cloned()).and_then(|v| if let RVal::Arr(a) = v { Some(a.iter().filter_map(|x| if let RVal::Int(i) = x { Some(order[*i as usize]) } else { None }).collect()) } else { None }).unwrap_or_default()
+        } else {
+            rows.iter().filter_map(|r| if let Some(RVal::Int(i)) = r.0.get("id") { Some(*i as usize) } else { None }).collect()
+        };
+        let exp: Vec<usize> = if what.ends_with("DESC") { (0..n).rev().collect() } else { (0..n).collect() };
+        if ids != exp {
+            errs.push(format!("{} puts the strings in the order {:?}, the code points say {:?}", what, ids, exp));
+        }
+    }
+    errs.truncate(8);
+    Ok((n * n + 3 * n, errs))
+}
+
 /// Objects that differ only in member order (which `=` ignores and the order does not), and
 /// objects whose texts sort between them: the four order functions must still describe one
 /// total preorder - dual (`>` is `<` swapped, `>=` is `<=` swapped), complementary (`<` is
